@@ -159,7 +159,12 @@ pub fn client(args: &[&str]) -> Option<Vec<String>> {
     }
     let msg = unhex(args.get(5)?)?;
     let mechs = mechs(if *args.get(6)? == "-" { "" } else { args[6] })?;
-    let creds = Credentials::new(unhex_str(args.get(7)?)?, unhex_str(args.get(8)?)?);
+    // the tokio runs build their credentials through the tuple conversion, the blocking ones through `Credentials::new`
+    let creds = if *args.first()? == "a" {
+        Credentials::from((unhex_str(args.get(7)?)?, unhex_str(args.get(8)?)?))
+    } else {
+        Credentials::new(unhex_str(args.get(7)?)?, unhex_str(args.get(8)?)?)
+    };
     let script = parse_script(args.get(9)?)?;
     let (user_s, pass_s) = (unhex_str(args.get(7)?)?, unhex_str(args.get(8)?)?);
     let dbg = format!("{:?}", creds);
